@@ -8,6 +8,7 @@ Decoders/predictors/pipeline/stream delimitation: hand model `PdfVerif.Model.Fil
 encoders).  Only property theorems live here; helper lemmas are in `Lemmas/Filters*.lean`.
 -/
 import PdfVerif.Lemmas.FiltersPred
+import PdfVerif.Lemmas.FiltersCodec
 
 namespace PdfVerif.Props.C03
 open PdfVerif PdfVerif.Filters PdfVerif.FilterEnc PdfVerif.Gen.Filters
@@ -51,5 +52,89 @@ example : apply_png_predictor 2 3 8 (pngEnc 2 3 8 [4, 3] [[1, 2, 3, 4, 5, 6], [9
 /-- Non-vacuity at one bit per component: 9 columns = 2 bytes per row. -/
 example : apply_png_predictor 1 9 1 (pngEnc 1 9 1 [1, 2] [[0xff, 0x80], [0xaa, 0x00]])
     = .ok [0xff, 0x80, 0xaa, 0x00] := by decide
+
+/-! ## Stream delimitation -/
+
+/-- The payload is delimited exactly, whatever bytes it contains (`endstream`, EOLs, NULs, …) and
+whatever precedes and follows it, for LF, CRLF (and a lone CR not followed by LF) after the keyword
+line, when `Length` is the payload length.  `kw` is the keyword line without its end-of-line
+(`stream`, possibly followed by blanks). -/
+theorem stream_delim (pre kw eol d post : Bytes) (hkw : ∀ c ∈ kw, c ≠ 10 ∧ c ≠ 13)
+    (heol : EolOk eol (d ++ post)) :
+    streamPayload (pre ++ kw ++ eol ++ d ++ post) pre.length d.length = .ok d := by
+  unfold streamPayload
+  have h1 : (pre ++ kw ++ eol ++ d ++ post).drop pre.length = kw ++ eol ++ (d ++ post) := by
+    simp only [List.append_assoc]; exact List.drop_left' rfl
+  rw [h1, nextline_kw kw hkw eol (d ++ post) heol]
+  have h2 : (pre ++ kw ++ eol ++ d ++ post).drop (pre.length + (kw ++ eol).length) = d ++ post := by
+    have : pre ++ kw ++ eol ++ d ++ post = (pre ++ (kw ++ eol)) ++ (d ++ post) := by simp [List.append_assoc]
+    rw [this]; exact List.drop_left' (by simp)
+  simp only [h2]
+  rw [List.take_left' rfl]
+
+/-- The literal keyword: `stream` LF / `stream` CR LF. -/
+theorem stream_delim_lf (pre d post : Bytes) :
+    streamPayload (pre ++ [115, 116, 114, 101, 97, 109] ++ [10] ++ d ++ post) pre.length d.length = .ok d :=
+  stream_delim pre _ [10] d post (by decide) (Or.inl rfl)
+
+theorem stream_delim_crlf (pre d post : Bytes) :
+    streamPayload (pre ++ [115, 116, 114, 101, 97, 109] ++ [13, 10] ++ d ++ post) pre.length d.length = .ok d :=
+  stream_delim pre _ [13, 10] d post (by decide) (Or.inr (Or.inl rfl))
+
+/-- Non-vacuity: a payload that contains `endstream` and a NUL, CRLF after the keyword. -/
+example : streamPayload ([60, 60, 62, 62] ++ [115, 116, 114, 101, 97, 109] ++ [13, 10] ++
+    [101, 110, 100, 115, 116, 114, 101, 97, 109, 0, 10] ++ [10, 101, 110, 100, 115, 116, 114, 101, 97, 109]) 4 11
+    = .ok [101, 110, 100, 115, 116, 114, 101, 97, 109, 0, 10] := by decide
+
+/-! ## RunLength -/
+
+/-- RunLength: ANY segmentation of the data into literal runs (1–128 bytes) and repeat runs
+(2–128 copies), with or without the EOD byte, decodes to the data. -/
+theorem rl_rt (segs : List RlSeg) (eod : Bool) (hv : ∀ s ∈ segs, s.valid = true) :
+    rldecode (rlEnc segs eod) = .ok (rlFlat segs) := by
+  unfold rldecode rlEnc
+  exact rlBody_rt _ (by cases eod <;> simp) segs _ hv (Nat.lt_succ_self _)
+
+example : rldecode (rlEnc [.run 3 7, .lit [1, 2, 128], .run 128 0] true)
+    = .ok ([7, 7, 7, 1, 2, 128] ++ List.replicate 128 0) := by decide
+
+/-! ## ASCIIHex -/
+
+/-- ASCIIHex: any mix of upper/lower-case digits, any white space between digits, with `>`,
+without EOD marker, or with `>` after an odd number of digits (final `0` left out). -/
+theorem ahx_rt (cs : List Nat) (tail : Nat) (x : Bytes) : asciihexdecode (ahxEnc cs tail x) = .ok x := by
+  unfold asciihexdecode ahxEnc
+  have hno := ahxDigits_no_gt cs (tail == 2) x
+  by_cases h1 : tail = 1
+  · subst h1
+    have ht2 : ((1 : Nat) == 2) = false := rfl
+    simp only [List.filter_append, ahx_filter, ht2] at hno ⊢
+    simp only [if_true, List.filter_nil, List.append_nil, beq_self_eq_true]
+    rw [takeWhile_all _ _ hno]
+    simp only [Nat.lt_irrefl, if_false]
+    exact unhexlify_digits cs x
+  · have ht : (tail == 1) = false := by simp [h1]
+    simp only [List.filter_append, ahx_filter, ht, Bool.false_eq_true, if_false]
+    have hf : List.filter (fun b => !isWs b) [62] = [62] := by decide
+    rw [hf, takeWhile_append_stop _ _ 62 [] hno (by decide)]
+    have hlt : (ahxDigits cs (tail == 2) x).length < (ahxDigits cs (tail == 2) x ++ [62]).length := by simp
+    simp only [hlt, if_true]
+    by_cases h2 : tail = 2
+    · subst h2
+      have ht2 : ((2 : Nat) == 2) = true := rfl
+      simp only [ht2]
+      rcases ahxDigits_dropped cs x with ⟨ha, hb⟩ | ⟨ha, hb⟩
+      · have : ((ahxDigits cs true x).length % 2 == 1) = false := by simp [hb]
+        simp only [this, Bool.false_eq_true, if_false, ha]
+      · have : ((ahxDigits cs true x).length % 2 == 1) = true := by simp [hb]
+        simp only [this, if_true, ha]
+    · have ht2 : (tail == 2) = false := by simp [h2]
+      simp only [ht2]
+      have hb := ahxDigits_false_even cs x
+      have : ((ahxDigits cs false x).length % 2 == 1) = false := by simp [hb]
+      simp only [this, Bool.false_eq_true, if_false]
+      exact unhexlify_digits cs x
+
+example : asciihexdecode (ahxEnc [5, 30, 2] 2 [0xAB, 0x00, 0xF0]) = .ok [0xAB, 0x00, 0xF0] := by decide
 
 end PdfVerif.Props.C03
